@@ -1084,18 +1084,75 @@ recv:
 		}
 	}
 	lch := make(chan *accountant.Vertex, len(stream)+1)
-	for _, v := range stream {
-		lch <- v
-	}
-	close(lch)
 	lctx, cancel := context.WithCancelCause(context.Background())
 	done := make(chan struct{})
 	var pv any
-	go func() {
-		defer close(done)
-		defer func() { pv = recover() }()
-		dst.ab.LoadDag(cancel, lch)
-	}()
+	if op.V != 0 && op.Kind == "during" {
+		// a delivery and a proposal that arrive while the stream is still coming in: the first half of the stream is
+		// handed over, the two operations are started, then the rest follows. A node that is still loading refuses both.
+		half := len(stream) / 2
+		for _, v := range stream[:half] {
+			lch <- v
+		}
+		go func() {
+			defer close(done)
+			defer func() { pv = recover() }()
+			dst.ab.LoadDag(cancel, lch)
+		}()
+		time.Sleep(5 * time.Millisecond)
+		type during struct {
+			what string
+			err  error
+			pv   any
+			done chan struct{}
+		}
+		var ds []*during
+		if id, ok := w.realID(op.V); ok {
+			vc := w.vtx[id-1]
+			d := &during{what: fmt.Sprintf("deliver %d", id), done: make(chan struct{})}
+			ds = append(ds, d)
+			go func() {
+				defer close(d.done)
+				defer func() { d.pv = recover() }()
+				d.err = dst.ab.AddLeaf(context.Background(), &vc)
+			}()
+		}
+		if t := w.trx[op.T]; t != nil {
+			tc := *t
+			d := &during{what: "propose " + op.T, done: make(chan struct{})}
+			ds = append(ds, d)
+			go func() {
+				defer close(d.done)
+				defer func() { d.pv = recover() }()
+				_, d.err = dst.ab.CreateLeaf(context.Background(), &tc)
+			}()
+		}
+		time.Sleep(20 * time.Millisecond)
+		for _, v := range stream[half:] {
+			lch <- v
+		}
+		close(lch)
+		for _, d := range ds {
+			select {
+			case <-d.done:
+			case <-wedgeTimer(1):
+				w.emit(event{"a": "Wedged", "n": op.M, "where": "during load"})
+				return
+			}
+			w.emit(event{"a": "DuringLoad", "n": op.M, "what": d.what, "res": classify(d.err, d.pv)})
+		}
+		kind = ""
+	} else {
+		for _, v := range stream {
+			lch <- v
+		}
+		close(lch)
+		go func() {
+			defer close(done)
+			defer func() { pv = recover() }()
+			dst.ab.LoadDag(cancel, lch)
+		}()
+	}
 	select {
 	case <-done:
 	case <-wedgeTimer(1):
